@@ -407,5 +407,4 @@ theorem load_eq_denote (ss : List Stmt) :
     (match tStmts [] 1 ss with | none => none | some ir => cAll [] ir) = dStmts [] [] ss :=
   stmts_sim ss [] 1 [] rfl
 
-#print axioms load_eq_denote
 end P.Sem
